@@ -15,6 +15,34 @@ TDEFS = {'myint_t': ['prim', 'int'], 's0ptr_t': ['ptr', ['agg', 'struct s0']],
          'arr128_t': ['arr', ['prim', 'signed char'], 128], 'arr127_t': ['arr', ['prim', 'long'], 127],
          'arr65535_t': ['arr', ['prim', 'int'], 65535], 'arr8388613_t': ['arr', ['prim', 'char'], 8388613]}
 ARR_TDEFS = sorted(k for k in TDEFS if TDEFS[k][0] == 'arr')
+# two generated modules that declare no type at all, only a function and integer constants -- with
+# different values: a type string such as "int[BUFLEN]" means a different C type in each of them
+CDEF_CONST = ["#define BUFLEN 16\n#define NN 3\n#define BIG 300\nint only_func(int);",
+              "#define BUFLEN 32\n#define NN 3\n#define BIG 200\nint only_func(int);"]
+CONSTS = {'cmod0': {'BUFLEN': 16, 'NN': 3, 'BIG': 300}, 'cmod1': {'BUFLEN': 32, 'NN': 3, 'BIG': 200}}
+
+
+def uses_const(d):
+    k = d[0]
+    if k == 'arr':
+        return isinstance(d[2], str) or uses_const(d[1])
+    if k == 'ptr':
+        return uses_const(d[1])
+    if k == 'func':
+        return uses_const(d[1]) or any(uses_const(a) for a in d[2])
+    return False
+
+
+def resolve_consts(d, consts):
+    k = d[0]
+    if k == 'arr':
+        n = consts[d[2]] if isinstance(d[2], str) else d[2]
+        return ['arr', resolve_consts(d[1], consts), n]
+    if k == 'ptr':
+        return ['ptr', resolve_consts(d[1], consts)]
+    if k == 'func':
+        return ['func', resolve_consts(d[1], consts), [resolve_consts(a, consts) for a in d[2]]] + list(d[3:])
+    return d
 PRIMS = ['int', 'long', 'char', 'double', 'unsigned short', 'signed char', 'float', 'uint64_t']
 AGGS = ['struct s0', 'struct s1', 'union u0', 'enum e0']
 
@@ -206,10 +234,12 @@ class Run(object):
             return f
         if kind == 'cffi':
             return self.be.FFI()
+        if kind.startswith('cmod'):
+            return self.check.cmods[int(kind[-1])].ffi
         return self.check.modules[int(kind[-1])].ffi
 
     def pick_ffi(self, k, need_agg):
-        c = [i for i, (kind, f) in enumerate(self.ffis) if not (need_agg and kind == 'cffi')]
+        c = [i for i, (kind, f) in enumerate(self.ffis) if not (need_agg and (kind == 'cffi' or kind.startswith('cmod')))]
         if not c:
             return None
         return self.ffis[c[k % len(c)]]
@@ -353,6 +383,18 @@ class Run(object):
 
     def build(self, how, k, d):
         self.salt = k
+        if uses_const(d):
+            # an array length given by the name of an integer constant: resolved by the FFI object that
+            # declares the constant -- each of the two constant-only modules gives its own C type
+            c = [e for e in self.ffis if e[0].startswith('cmod')]
+            if not c:
+                return None
+            entry = c[k % len(c)]
+            rd = resolve_consts(d, CONSTS[entry[0]])
+            st = render(d)
+            ct = self.checked(entry[1].typeof(st), rd, 'typeof(string %r) through %s' % (st, entry[0]))
+            self.out.probe('array_length_named_by_a_constant_of_the_module')
+            return ct, entry[0], rd       # later rebuilds of this type use the resolved lengths
         need = needs_cdef(d)
         entry = self.pick_ffi(k, need)
         if entry is None:
@@ -371,7 +413,7 @@ class Run(object):
             else:
                 ct = t
             del t
-        if entry[0].startswith('module') or entry[0] == 'cffi':
+        if entry[0].startswith('module') or entry[0] == 'cffi' or entry[0].startswith('cmod'):
             self.out.probe('built_through_C_parser')
         else:
             self.out.probe('built_through_python_parser')
@@ -382,7 +424,7 @@ class Run(object):
         if name == 'build':
             r = self.build(op[1], op[2], op[3])
             if r is not None:
-                self.slots.append((r[0], [op[3], r[1]]))
+                self.slots.append((r[0], [r[2] if len(r) > 2 else op[3], r[1]]))
         elif name == 'drop':
             if self.slots:
                 del self.slots[op[1] % len(self.slots)]
@@ -400,7 +442,7 @@ class Run(object):
             if self.ffis:
                 i = op[1] % len(self.ffis)
                 kind = self.ffis[i][0]
-                if not kind.startswith('module'):
+                if not kind.startswith('module') and not kind.startswith('cmod'):
                     self.ffis[i][1] = None
                     self.ffis[i][1] = self.make_ffi(kind)
                     self.out.probe('ffi_dropped_and_recreated')
@@ -513,13 +555,19 @@ class C27(core.Check):
         self.bdir = build.backend(True)
         self.m0 = build.helper_module('_verif_c27a', CDEF, None, self.bdir, source_none=True)
         self.m1 = build.helper_module('_verif_c27b', CDEF, None, self.bdir, source_none=True)
+        self.m2 = build.helper_module('_verif_c27c', CDEF_CONST[0], None, self.bdir, source_none=True)
+        self.m3 = build.helper_module('_verif_c27d', CDEF_CONST[1], None, self.bdir, source_none=True)
         build.activate(self.bdir)
         sys.path.insert(0, self.m0)
         sys.path.insert(0, self.m1)
+        sys.path.insert(0, self.m2)
+        sys.path.insert(0, self.m3)
         import cffi, _cffi_backend, _verif_c27a, _verif_c27b
         self.cffi = cffi
         self.backend = _cffi_backend
         self.modules = [_verif_c27a, _verif_c27b]
+        import _verif_c27c, _verif_c27d
+        self.cmods = [_verif_c27c, _verif_c27d]
         # ABI numbers for which this libffi prepares a cif (platform dependent; probed once)
         self.abis = []
         bint = _cffi_backend.new_primitive_type('int')
@@ -532,7 +580,8 @@ class C27(core.Check):
 
     def generate(self, rng, idx, tier):
         nffi = rng.randint(1, 4)
-        ffis = [rng.weighted([('inline', 4), ('cffi', 2), ('module0', 1), ('module1', 1)]) for _ in range(nffi)]
+        ffis = [rng.weighted([('inline', 4), ('cffi', 2), ('module0', 1), ('module1', 1), ('cmod0', 1), ('cmod1', 1)])
+                for _ in range(nffi)]
         pool = []
         for _ in range(rng.randint(2, 6)):
             pool.append(fix_open_arrays(gen_desc(rng, rng.randint(1, 4), rng.chance(0.5))))
@@ -545,6 +594,17 @@ class C27(core.Check):
             pool.append(['arr', t, n])
             pool.append(['func', ['ptr', t], [], False])
             pool.append(['ptr', ['arr', t, n]])
+        if r2.chance(0.15):
+            t = ['prim', r2.choice(PRIMS)]
+            name = r2.choice(['BUFLEN', 'BUFLEN', 'NN', 'BIG'])
+            pool.append(['arr', t, name])
+            pool.append(['ptr', ['arr', t, name]])
+            pool.append(['arr', ['ptr', t], name])
+            pool.append(['arr', t, CONSTS['cmod0'][name]])     # the same lengths spelled as literals
+            pool.append(['arr', t, CONSTS['cmod1'][name]])
+            for kind in ('cmod0', 'cmod1'):
+                if kind not in ffis:
+                    ffis.append(kind)
         ops = []
         for _ in range(rng.randint(5, 60)):
             name = rng.weighted([('build', 30), ('drop', 12), ('cycle', 6), ('dropffi', 3), ('churn', 4),
